@@ -264,3 +264,11 @@ func cmdList(args []string) {
 	}
 	fmt.Printf("%d functions indexed, %d contracts, %d preds, %d lemmas\n", len(eng.funcs), len(eng.specs.Contracts), len(eng.specs.Preds), len(eng.specs.Lemmas))
 }
+
+func init() {
+	if os.Getenv("GOVC_DUMP_FIELDS") != "" {
+		dumpFields = true
+	}
+}
+
+var dumpFields bool
